@@ -17,6 +17,9 @@ def one_move(ctx, name, src_field, src_ty, dst_field, dst_ty):
         r = ctx.S.slice_operand(body, c.args[0]); cl = ctx.S.slice_operand(body, c.args[1])
         ctx.check(r.has_field(INST, src_field) and not r.has_field(INST, dst_field), R + '/lookup/list', 'T-CARRY', body.name,
                   'lookup does not search self.%s' % src_field, body.site(c.bb))
+        adaptors = sorted({x.item for x in r.call_objs if 'Iterator' in (x.trait or '') and x.item not in ('position', 'rposition', 'into_iter', 'iter', 'by_ref')})
+        ctx.check(not adaptors, R + '/lookup/index-of-the-list-itself', 'T-CARRY', body.name,
+                  'the position is computed on an adapted iterator (%s), so it is not an index into self.%s' % (adaptors, src_field), body.site(c.bb))
         ctx.check(cl.has_field('v1::Constraint', 'id') and 2 in cl.params, R + '/lookup/by-id', 'T-CARRY', body.name,
                   'lookup predicate does not compare the constraint id with the argument', body.site(c.bb))
         eq = False
